@@ -32,7 +32,8 @@ Lemma sent_good : forall mid0 draws evs t m, wf_run draws evs -> In (OSend t m) 
      In (m_remote m, m_mid m) (recv_keys evs) \/ In (err_key (m_remote m)) (recv_keys evs) \/
      (Z.of_nat n = MAX_RETRANSMIT (m_tuning m) + 1 /\
       (In (OFail (T0 + t0 * (2 ^ (MAX_RETRANSMIT (m_tuning m) + 1) - 1)) (m_rid m) ConRetransmitsExceeded) (trace_of mid0 draws evs) \/
-       In (gone_key (m_rid m)) (recv_keys evs)))).
+       In (gone_key (m_rid m)) (recv_keys evs))) \/
+     ((exists tf, In (OFail tf (m_rid m) NetworkError) (trace_of mid0 draws evs)) \/ In (gone_key (m_rid m)) (recv_keys evs))).
 Proof.
   intros mid0 draws evs t m W Hin. destruct (reach mid0 draws evs W) as (S & [_ Hg] & _).
   destruct (Hg (m_rid m)) as (m0 & T0 & t0 & n & Hc & Hn & Ht & Hb & Hcl).
@@ -76,10 +77,11 @@ Lemma gives_up : forall mid0 draws evs t m, wf_run draws evs -> In (OSend t m) (
     ( (exists e, In e (active_exchanges (final_of mid0 draws evs)) /\ h_message (e_timer e) = m /\
                  h_due (e_timer e) = T0 + t0 * (2 ^ Z.of_nat n - 1) /\ now (final_of mid0 draws evs) <= h_due (e_timer e)) \/
       (Z.of_nat n = MAX_RETRANSMIT (m_tuning m) + 1 /\
-       In (OFail (T0 + t0 * (2 ^ (MAX_RETRANSMIT (m_tuning m) + 1) - 1)) (m_rid m) ConRetransmitsExceeded) (trace_of mid0 draws evs)) ).
+       In (OFail (T0 + t0 * (2 ^ (MAX_RETRANSMIT (m_tuning m) + 1) - 1)) (m_rid m) ConRetransmitsExceeded) (trace_of mid0 draws evs)) \/
+      (exists tf, In (OFail tf (m_rid m) NetworkError) (trace_of mid0 draws evs)) ).
 Proof.
   intros mid0 draws evs t m W Hin Hno Hne Hng. destruct (sent_good _ _ _ _ _ W Hin) as (T0 & t0 & n & Hc & Hn & Hr & Hle & Ht & Hcl).
-  exists T0, t0, n. splits; auto. destruct Hcl as [[e [He1 He2]]|[H|[H|[H1 [H|H]]]]]; [left|tauto|tauto|right; auto|tauto].
+  exists T0, t0, n. splits; auto. destruct Hcl as [[e [He1 He2]]|[H|[H|[[H1 [H|H]]|[H|H]]]]]; [left|tauto|tauto|right; left; auto|tauto|right; right; exact H|tauto].
   destruct (Ht e He1 He2) as (Hm & Hnc & _ & Hdue). exists e. splits; auto.
   - rewrite Hdue, Hnc. reflexivity.
   - destruct (reach mid0 draws evs W) as (S & _). pose proof (s_ex _ _ S) as Hex. rewrite Forall_forall in Hex. specialize (Hex e He1). unfold entry_ok in Hex. tauto.
@@ -121,6 +123,16 @@ Proof.
   intros. unfold live, live_rids. rewrite in_app_iff, in_map_iff. split; intros [H|H]; auto; left; destruct H as [e H]; exists e; tauto.
 Qed.
 
+Lemma live_dispatch : forall st1 r st' oe, mm_dispatch_error st1 r = (st', oe) ->
+  (forall x, live x st' -> live x st1) /\ (forall t m, ~ In (OSend t m) oe).
+Proof.
+  intros st1 r st' oe H. unfold mm_dispatch_error, tm_dispatch_error in H. inv H. split.
+  - intros x Hx. apply live_iff in Hx. apply live_iff. cbn in Hx. destruct Hx as [[e [He Hr]]|Hx].
+    + left. exists e. apply filter_In in He. tauto.
+    + right. eapply in_back_qdel_sub; eauto.
+  - intros t m Hi. apply in_map_iff in Hi. destruct Hi as [p [Hp _]]. discriminate.
+Qed.
+
 Lemma recv_live : forall seen st r mid b st' o, Struct seen st -> _remove_exchange st r mid b = (st', o) ->
   (forall x, live x st' -> live x st \/ ~ In x seen) /\
   (forall t m, In (OSend t m) o -> live (m_rid m) st \/ ~ In (m_rid m) seen).
@@ -130,86 +142,115 @@ Proof.
   + split; [auto|intros t m []].
   + destruct (pop_facts seen st _ mon h S X) as (Hin & _ & _ & _ & _ & Hrest & _). cbn [fst] in *.
     change r with (fst (r, mid)) in C. apply (continue_after_pop seen st (r, mid) mon h st2 st' o2 S X En Er Ex Eb Enr) in C.
-    destruct C as (_ & _ & _ & _ & q & Q & Hq). cbn [fst] in *.
+    destruct C as (_ & _ & q & Q & Hq). cbn [fst] in *.
     assert (Ho1 : forall t m, ~ In (OSend t m) o1) by (apply (o1_no_error _ _ _ _ Ho1c)).
     destruct q as [|[m2 mon2] rest].
-    * destruct Hq as (-> & Ex' & Eb'). split.
+    * destruct Hq as (-> & Ex' & Eb' & _ & _). split.
       -- intros x Hx. left. apply live_iff in Hx. apply live_iff. rewrite Ex', Eb' in Hx. destruct Hx as [[e [He Hr]]|Hx].
          ++ left. exists e. apply Hrest in He. tauto.
          ++ right. eapply in_back_qdel_sub; eauto.
       -- intros t m Hi. rewrite app_nil_r in Hi. exfalso. eapply Ho1; eauto.
-    * destruct Hq as (-> & Hr2 & Hwf2 & Hseen2 & t & Hrg & -> & Ex' & Eb').
+    * destruct Hq as (-> & Hr2 & Hwf2 & Hseen2 & t & st1 & oe & Hrg & S1 & _ & _ & Ex' & Eb' & Hcase).
       assert (Hl2 : live (m_rid m2) st).
       { apply live_iff. right. apply (in_back_rids _ r _ (m2, m_rid m2) (qget_in _ _ _ Q)). left. reflexivity. }
-      split.
-      -- intros x Hx. left. apply live_iff in Hx. rewrite Ex', Eb' in Hx. destruct Hx as [[e [He Hr]]|Hx].
-         ++ apply in_xset in He. destruct He as [->|[He _]]; [unfold e_rid, e_timer in Hr; cbn in Hr; subst x; exact Hl2|].
-            apply live_iff. left. exists e. apply Hrest in He. tauto.
-         ++ apply live_iff. right. eapply (in_back_qset_sub _ r _ rest); eauto; [apply (s_bl_nodup _ _ S)|].
-            intros y Hy. right. exact Hy.
-      -- intros t' m Hi. apply in_app_iff in Hi. destruct Hi as [Hi|Hi]; [exfalso; eapply Ho1; eauto|].
-         cbn in Hi. destruct Hi as [Hi|[Hi|[]]]; [discriminate|]. inv Hi. left. exact Hl2.
+      assert (L1 : forall x, live x st1 -> live x st \/ ~ In x seen).
+      { intros x Hx. left. apply live_iff in Hx. rewrite Ex', Eb' in Hx. destruct Hx as [[e [He Hr]]|Hx].
+        - apply in_xset in He. destruct He as [->|[He _]]; [unfold e_rid, e_timer in Hr; cbn in Hr; subst x; exact Hl2|].
+          apply live_iff. left. exists e. apply Hrest in He. tauto.
+        - apply live_iff. right. eapply (in_back_qset_sub _ r _ rest); eauto; [apply (s_bl_nodup _ _ S)|].
+          intros y Hy. right. exact Hy. }
+      destruct Hcase as [(_ & -> & ->)|(_ & D & ->)]; (split; [|intros t' m Hi; apply in_app_iff in Hi; destruct Hi as [Hi|Hi]; [exfalso; eapply Ho1; eauto|]]).
+      -- exact L1.
+      -- cbn in Hi. destruct Hi as [Hi|[Hi|[]]]; [discriminate|]. inv Hi. left. exact Hl2.
+      -- intros x Hx. apply L1. apply (proj1 (live_dispatch _ _ _ _ D)). exact Hx.
+      -- destruct Hi as [Hi|Hi]; [discriminate|]. exfalso. eapply (proj2 (live_dispatch _ _ _ _ D)); eauto.
 Qed.
 
 (* only live or brand-new messages are put on the wire, and nothing dead comes back to life *)
+Lemma finish_live : forall seen (st st1 st' : state) (o_sent o : list output) r oe dr,
+  (forall x, live x st1 -> live x st \/ ~ In x seen) ->
+  (forall t m, In (OSend t m) o_sent -> live (m_rid m) st \/ ~ In (m_rid m) seen) ->
+  ((st' = st1 /\ o = dr ++ o_sent) \/ (mm_dispatch_error st1 r = (st', oe) /\ o = dr ++ oe)) ->
+  (forall t m, ~ In (OSend t m) dr) ->
+  (forall x, live x st' -> live x st \/ ~ In x seen) /\
+  (forall t m, In (OSend t m) o -> live (m_rid m) st \/ ~ In (m_rid m) seen).
+Proof.
+  intros seen st st1 st' o_sent o r oe dr L1 L2 [(-> & ->)|(D & ->)] Hdr; split; auto.
+  - intros t m Hi. apply in_app_iff in Hi. destruct Hi as [Hi|Hi]; [exfalso; eapply Hdr; eauto|eauto].
+  - intros x Hx. apply L1. apply (proj1 (live_dispatch _ _ _ _ D)). exact Hx.
+  - intros t m Hi. apply in_app_iff in Hi. destruct Hi as [Hi|Hi]; exfalso; [eapply Hdr; eauto|eapply (proj2 (live_dispatch _ _ _ _ D)); eauto].
+Qed.
+
+Lemma retransmit_live : forall seen st e h st' o, Struct seen st -> In e (active_exchanges st) -> e_timer e = h ->
+  _retransmit st h = (st', o) ->
+  (forall x, live x st' -> live x st \/ ~ In x seen) /\
+  (forall t m, In (OSend t m) o -> live (m_rid m) st \/ ~ In (m_rid m) seen).
+Proof.
+  intros seen st e h st' o S He1 He2 H.
+  pose proof (retransmit_struct _ _ _ _ _ _ S He1 He2 H) as Sh. cbv zeta in Sh. destruct Sh as (_ & _ & _ & X & Sh).
+  destruct (pop_facts seen _ _ _ h S X) as (_ & _ & _ & _ & _ & Hrest & _).
+  assert (Hl : live (m_rid (h_message h)) st) by (apply live_iff; left; exists e; split; auto; unfold e_rid; rewrite He2; reflexivity).
+  destruct Sh as [(_ & st1 & oe & _ & _ & Ex & Eb & _ & Hcase)|(_ & -> & Ex & Eb & _)].
+  - apply (finish_live seen st st1 st' [OSend (now st) (h_message h)] o (m_remote (h_message h)) oe []).
+    + intros x Hx. left. apply live_iff in Hx. rewrite Ex, Eb in Hx. destruct Hx as [[e' [He' Hr']]|Hx].
+      * apply in_xset in He'. destruct He' as [->|[He' _]]; [unfold e_rid, e_timer in Hr'; cbn in Hr'; subst x; exact Hl|]. apply live_iff. left. exists e'. apply Hrest in He'. tauto.
+      * apply live_iff. right. exact Hx.
+    + intros t' m Hi. cbn in Hi. destruct Hi as [Hi|[]]. inv Hi. left. exact Hl.
+    + destruct Hcase as [(_ & -> & ->)|(_ & D & ->)]; [left|right]; auto.
+    + intros t m [].
+  - split.
+    + intros x Hx. left. apply live_iff in Hx. rewrite Ex, Eb in Hx. destruct Hx as [[e' [He' Hr']]|Hx].
+      * apply live_iff. left. exists e'. apply Hrest in He'. tauto.
+      * apply live_iff. right. eapply in_back_qdel_sub; eauto.
+    + intros t' m Hi. unfold gave_up_outputs in Hi. apply in_map_iff in Hi. destruct Hi as [p [Hp _]]. discriminate.
+Qed.
+
 Lemma step_live : forall seen st e st' o, Struct seen st -> wf_event seen e -> step st e = (st', o) ->
   (forall x, live x st' -> live x st \/ ~ In x seen) /\
   (forall t m, In (OSend t m) o -> live (m_rid m) st \/ ~ In (m_rid m) seen).
 Proof.
   intros seen st e st' o S W H. destruct e as [rid r tn|r b mid|t| | |r|rid|r ty mid rid|r on]; cbn [step] in *.
   - destruct W as [W1 W2]. pose proof (request_shape _ _ _ _ _ _ _ S W1 W2 H) as Sh. cbv zeta in Sh.
-    destruct Sh as (_ & [(q & Q & -> & Ex & Eb)|(Q & Hno & t & sq & Hrg & -> & Ex & Eb & _)]).
+    destruct Sh as [(q & Q & -> & Ex & Eb & _)|(Q & Hno & t & sq & st1 & oe & Hrg & _ & _ & _ & Ex & Eb & _ & Hcase)].
     + split; [|intros t m []]. intros x Hx. apply live_iff in Hx. rewrite Ex, Eb in Hx. destruct Hx as [Hx|Hx]; [left; apply live_iff; auto|].
       unfold qset, back_rids in Hx. cbn [flat_map snd] in Hx. apply in_app_iff in Hx. destruct Hx as [Hx|Hx].
       * unfold q_rids in Hx. rewrite map_app in Hx. apply in_app_iff in Hx. destruct Hx as [Hx|Hx].
         -- left. apply live_iff. right. unfold back_rids. apply in_flat_map. exists (r, q). split; [apply qget_in; auto|exact Hx].
         -- cbn in Hx. destruct Hx as [<-|[]]. right. exact W1.
       * left. apply live_iff. right. eapply in_back_qdel_sub; eauto.
-    + split.
+    + match type of Hcase with (_ /\ _ /\ _ = [?d; ?sd]) \/ _ => apply (finish_live seen st st1 st' [sd] o r oe [d]) end.
       * intros x Hx. apply live_iff in Hx. rewrite Ex in Hx. destruct Hx as [[e [He Hr]]|Hx].
         -- apply in_xset in He. destruct He as [->|[He _]]; [right; unfold e_rid, e_timer in Hr; cbn in Hr; subst x; exact W1|left; apply live_iff; left; eauto].
         -- left. apply live_iff. right. apply Eb. exact Hx.
-      * intros t' m Hi. cbn in Hi. destruct Hi as [Hi|[Hi|[]]]; [discriminate|]. inv Hi. right. exact W1.
+      * intros t' m Hi. cbn in Hi. destruct Hi as [Hi|[]]. inv Hi. right. exact W1.
+      * destruct Hcase as [(_ & -> & ->)|(_ & D & ->)]; [left|right]; auto.
+      * intros t' m Hi. cbn in Hi. destruct Hi as [Hi|[]]. discriminate.
   - eapply recv_live; eauto.
   - inv H. split; [auto|intros t' m []].
   - destruct (next_timer st) as [h|] eqn:N; [|inv H; split; [auto|intros t' m []]].
     destruct (next_timer_facts _ _ N) as (e & He1 & He2 & Hmin).
     assert (S1 : Struct seen (set_now st (Z.max (now st) (h_due h)))) by (apply struct_set_now; auto).
-    pose proof (retransmit_struct _ _ _ _ _ _ S1 He1 He2 H) as Sh. cbv zeta in Sh. destruct Sh as (_ & _ & _ & X & Sh).
-    destruct (pop_facts seen _ _ _ h S1 X) as (_ & _ & _ & _ & _ & Hrest & _).
-    assert (Hl : live (m_rid (h_message h)) st) by (apply live_iff; left; exists e; split; auto; unfold e_rid; rewrite He2; reflexivity).
-    destruct Sh as [(_ & -> & Ex & Eb & _)|(_ & -> & Ex & Eb & _)]; (split; [intros x Hx; left; apply live_iff in Hx; rewrite Ex, Eb in Hx; destruct Hx as [[e' [He' Hr']]|Hx]|]).
-    + apply in_xset in He'. destruct He' as [->|[He' _]]; [unfold e_rid, e_timer in Hr'; cbn in Hr'; subst x; exact Hl|]. apply live_iff. left. exists e'. apply Hrest in He'. tauto.
-    + apply live_iff. right. exact Hx.
-    + intros t' m Hi. cbn in Hi. destruct Hi as [Hi|[]]. inv Hi. left. exact Hl.
-    + apply live_iff. left. exists e'. apply Hrest in He'. tauto.
-    + apply live_iff. right. eapply in_back_qdel_sub; eauto.
-    + intros t' m Hi. unfold gave_up_outputs in Hi. apply in_map_iff in Hi. destruct Hi as [p [Hp _]]. discriminate.
+    apply (retransmit_live seen _ e h st' o S1 He1 He2 H).
   - destruct (next_timer st) as [h|] eqn:N; [|inv H; split; [auto|intros t' m []]].
     destruct (h_due h <=? now st) eqn:Hd; [|inv H; split; [auto|intros t' m []]].
     destruct (next_timer_facts _ _ N) as (e & He1 & He2 & Hmin).
-    pose proof (retransmit_struct _ _ _ _ _ _ S He1 He2 H) as Sh. cbv zeta in Sh. destruct Sh as (_ & _ & _ & X & Sh).
-    destruct (pop_facts seen _ _ _ h S X) as (_ & _ & _ & _ & _ & Hrest & _).
-    assert (Hl : live (m_rid (h_message h)) st) by (apply live_iff; left; exists e; split; auto; unfold e_rid; rewrite He2; reflexivity).
-    destruct Sh as [(_ & -> & Ex & Eb & _)|(_ & -> & Ex & Eb & _)]; (split; [intros x Hx; left; apply live_iff in Hx; rewrite Ex, Eb in Hx; destruct Hx as [[e' [He' Hr']]|Hx]|]).
-    + apply in_xset in He'. destruct He' as [->|[He' _]]; [unfold e_rid, e_timer in Hr'; cbn in Hr'; subst x; exact Hl|]. apply live_iff. left. exists e'. apply Hrest in He'. tauto.
-    + apply live_iff. right. exact Hx.
-    + intros t' m Hi. cbn in Hi. destruct Hi as [Hi|[]]. inv Hi. left. exact Hl.
-    + apply live_iff. left. exists e'. apply Hrest in He'. tauto.
-    + apply live_iff. right. eapply in_back_qdel_sub; eauto.
-    + intros t' m Hi. unfold gave_up_outputs in Hi. apply in_map_iff in Hi. destruct Hi as [p [Hp _]]. discriminate.
-  - destruct (error_struct _ _ _ _ _ S H) as (_ & _ & _ & Ex & Eb & _ & ->). split.
-    + intros x Hx. left. apply live_iff in Hx. apply live_iff. rewrite Ex, Eb in Hx. destruct Hx as [[e [He Hr]]|Hx].
-      * left. exists e. apply filter_In in He. tauto.
-      * right. eapply in_back_qdel_sub; eauto.
-    + intros t m Hi. apply in_map_iff in Hi. destruct Hi as [p [Hp _]]. discriminate.
+    apply (retransmit_live seen _ e h st' o S He1 He2 H).
+  - destruct (live_dispatch _ _ _ _ H) as [L1 L2]. split; [intros x Hx; left; auto|intros t m Hi; exfalso; eapply L2; eauto].
   - inv H. split; [intros x Hx; left; exact Hx|intros t m []].
-  - destruct (response_shape _ _ _ _ _ _ _ _ S H) as (st1 & o1 & o2 & E1 & -> & S1 & Hn1 & En & Ex & Eb & Er & Enr & _ & _ & _ & Hs2 & _).
+  - destruct (response_shape _ _ _ _ _ _ _ _ S H) as (st1 & o1 & st2 & o2 & o3 & E1 & -> & S1 & Hn1 & S2 & En & Ex & Eb & _ & _ & Ho2 & Hcase).
     assert (L : (forall x, live x st1 -> live x st \/ ~ In x seen) /\ (forall t m, In (OSend t m) o1 -> live (m_rid m) st \/ ~ In (m_rid m) seen)).
     { revert E1. destruct (ty =? 0); intros E1; [eapply recv_live; eauto|]. inv E1. split; [auto|intros t m []]. }
-    destruct L as [L1 L2]. split.
-    + intros x Hx. apply L1. apply live_iff in Hx. apply live_iff. rewrite Ex, Eb in Hx. exact Hx.
-    + intros t m Hi. apply in_app_iff in Hi. destruct Hi as [Hi|Hi]; [eauto|exfalso; eapply Hs2; eauto].
+    destruct L as [L1 L2].
+    assert (L12 : forall x, live x st2 -> live x st \/ ~ In x seen).
+    { intros x Hx. apply L1. apply live_iff in Hx. apply live_iff. rewrite Ex, Eb in Hx. exact Hx. }
+    assert (Hs2 : forall t m, ~ In (OSend t m) o2) by (destruct Ho2 as [->| ->]; intros t m Hi; cbn in Hi; intuition discriminate).
+    assert (Hs3 : forall t m, ~ In (OSend t m) o3 /\ forall x, live x st' -> live x st2).
+    { intros t m. destruct Hcase as [(-> & Ho3)|(_ & D)].
+      - split; auto. destruct Ho3 as [->|[b ->]]; intros Hi; cbn in Hi; intuition discriminate.
+      - split; [apply (proj2 (live_dispatch _ _ _ _ D))|apply (proj1 (live_dispatch _ _ _ _ D))]. }
+    split.
+    + intros x Hx. apply L12. apply (proj2 (Hs3 0 {| m_remote := 0; m_mid := 0; m_rid := 0; m_tuning := {| ACK_TIMEOUT := 0; ARF_num := 0; ARF_den := 0; MAX_RETRANSMIT := 0 |} |})). exact Hx.
+    + intros t m Hi. apply in_app_iff in Hi. destruct Hi as [Hi|Hi]; [eauto|]. apply in_app_iff in Hi. destruct Hi as [Hi|Hi]; exfalso; [eapply Hs2|eapply (proj1 (Hs3 t m))]; eauto.
   - inv H. split; [intros x Hx; left; exact Hx|intros t m []].
 Qed.
 
@@ -253,7 +294,8 @@ Lemma ack_stops : forall mid0 draws evs1 r b mid evs2 mon h,
   let '(st2, o) := step st1 (ERecv r b mid) in
   let '(st3, os) := run st2 evs2 in
   mon = m_rid (h_message h) /\ copies mon (o ++ concat os) = [] /\
-  (if b then In (gone_key mon) (recv_keys evs1) \/ In (OFail (now st1) mon MessageError) o else forall t e, ~ In (OFail t mon e) o).
+  (if b then In (gone_key mon) (recv_keys evs1) \/ In (OFail (now st1) mon MessageError) o
+   else forall t e, In (OFail t mon e) o -> e = NetworkError /\ is_refusing st1 r = true).
 Proof.
   intros mid0 draws evs1 r b mid evs2 mon h [Hd W] X st1.
   apply wf_events_app in W. destruct W as [W1 [_ W2]]. cbn [seen_after] in W2.
@@ -265,22 +307,27 @@ Proof.
   destruct (pop_facts _ st1 _ mon' h' S X) as (Hin & _ & Hmon & _ & _ & Hrest & Hbr & _). cbn [fst] in *.
   change r with (fst (r, mid)) in C.
   apply (continue_after_pop (seen_all [] evs1) st1 (r, mid) mon' h' st2' st2 o2 S X En Er Ex Eb Enr) in C.
-  destruct C as (_ & _ & _ & _ & q & Q & Hq). cbn [fst] in *.
+  destruct C as (_ & _ & q & Q & Hq). cbn [fst] in *.
   assert (Hseen : In mon' (seen_all [] evs1)).
   { eapply live_rids_seen; [exact S|]. unfold live_rids. apply in_app_iff. left. apply in_map_iff. exists ((r, mid), (mon', h')). split; auto. }
-  assert (Hdead : ~ live mon' st2 /\ copies mon' o2 = [] /\ forall t e, ~ In (OFail t mon' e) o2).
+  assert (Hdead : ~ live mon' st2 /\ copies mon' o2 = [] /\ forall t e, In (OFail t mon' e) o2 -> e = NetworkError /\ is_refusing st1 r = true).
   { destruct q as [|[m2 mon2] rest].
-    - destruct Hq as (-> & Ex' & Eb'). splits; auto. intros Hl. apply live_iff in Hl. rewrite Ex', Eb' in Hl. destruct Hl as [[e [He Hr]]|Hl].
+    - destruct Hq as (-> & Ex' & Eb' & _ & _). splits; auto; [|intros t e []]. intros Hl. apply live_iff in Hl. rewrite Ex', Eb' in Hl. destruct Hl as [[e [He Hr]]|Hl].
       + apply Hrest in He. tauto.
       + apply in_back_qdel_sub in Hl. eapply Hbr; eauto.
-    - destruct Hq as (-> & Hr2 & Hwf2 & Hseen2 & t & Hrg & -> & Ex' & Eb').
+    - destruct Hq as (-> & Hr2 & Hwf2 & Hseen2 & t & st1' & oe & Hrg & S1' & _ & _ & Ex' & Eb' & Hcase).
       assert (Hne2 : m_rid m2 <> mon') by (apply Hbr; apply (in_back_rids _ r _ (m2, m_rid m2) (qget_in _ _ _ Q)); left; reflexivity).
-      splits.
-      + intros Hl. apply live_iff in Hl. rewrite Ex', Eb' in Hl. destruct Hl as [[e [He Hr]]|Hl].
+      assert (Hd1' : ~ live mon' st1').
+      { intros Hl. apply live_iff in Hl. rewrite Ex', Eb' in Hl. destruct Hl as [[e [He Hr]]|Hl].
         * apply in_xset in He. destruct He as [->|[He _]]; [unfold e_rid, e_timer in Hr; cbn in Hr; congruence|]. apply Hrest in He. tauto.
-        * eapply (in_back_qset_sub _ r _ rest) in Hl; eauto; [eapply Hbr; eauto|apply (s_bl_nodup _ _ S)|intros y Hy; right; exact Hy].
+        * eapply (in_back_qset_sub _ r _ rest) in Hl; eauto; [eapply Hbr; eauto|apply (s_bl_nodup _ _ S)|intros y Hy; right; exact Hy]. }
+      destruct Hcase as [(_ & -> & ->)|(Hrf & D & ->)]; splits; auto.
       + cbn. assert (m_rid m2 =? mon' = false) as -> by (apply Z.eqb_neq; auto). reflexivity.
-      + intros t' e Hi. cbn in Hi. destruct Hi as [Hi|[Hi|[]]]; discriminate. }
+      + intros t' e Hi. cbn in Hi. destruct Hi as [Hi|[Hi|[]]]; discriminate.
+      + intros Hl. apply Hd1'. apply (proj1 (live_dispatch _ _ _ _ D)). exact Hl.
+      + cbn. apply copies_fail_only. apply (proj2 (live_dispatch _ _ _ _ D)).
+      + intros t' e Hi. cbn in Hi. destruct Hi as [Hi|Hi]; [discriminate|]. split; auto.
+        unfold mm_dispatch_error, tm_dispatch_error in D. inv D. apply in_map_iff in Hi. destruct Hi as [p [Hp _]]. inv Hp. reflexivity. }
   destruct Hdead as (Hd1 & Hd2 & Hd3). splits; auto.
   - rewrite !copies_app, Hd2. rewrite (dead_run evs2 _ st2 st3 os mon' S2 W2 Hseen Hd1 R).
     destruct Ho1c as [->|[_ ->]]; reflexivity.
@@ -404,4 +451,81 @@ Proof.
   match type of H with (if is_refusing ?s _ then _ else _) = _ => assert (is_refusing s (m_remote m) = true) as Hr' by exact Hr; rewrite Hr' in H;
     destruct (dispatch_error_facts _ _ _ _ H) as (F1 & F2 & F3 & F4 & F5) end.
   splits; auto.
+Qed.
+
+(* ---- run level, refusing transports included ---- *)
+(* a RETRANSMISSION handed to a refusing transport: the message is never put on the wire again, in this step or in any continuation;
+   every request pending towards the remote fails with NetworkError at that instant *)
+Lemma refused_retransmission_stops : forall mid0 draws evs1 ev evs2 h,
+  wf_run draws (evs1 ++ ev :: evs2) -> (ev = EFire \/ (ev = EFireDue /\ h_due h <= now (final_of mid0 draws evs1))) ->
+  next_timer (final_of mid0 draws evs1) = Some h ->
+  h_counter h < MAX_RETRANSMIT (m_tuning (h_message h)) ->
+  is_refusing (final_of mid0 draws evs1) (m_remote (h_message h)) = true ->
+  let st1 := final_of mid0 draws evs1 in
+  let '(st2, o) := step st1 ev in
+  let '(st3, os) := run st2 evs2 in
+  copies (m_rid (h_message h)) (o ++ concat os) = [] /\
+  (forall rid, In (rid, m_remote (h_message h)) (outgoing_requests st1) -> In (OFail (Z.max (now st1) (h_due h)) rid NetworkError) o).
+Proof.
+  intros mid0 draws evs1 ev evs2 h [Hd W] Hev N Hc Hr st1.
+  apply wf_events_app in W. destruct W as [W1 [Wev W2]].
+  destruct (reach mid0 draws evs1 (conj Hd W1)) as (S & _). fold st1 in S, N, Hr, Hev.
+  assert (Hsa : seen_after (seen_all [] evs1) ev = seen_all [] evs1) by (destruct Hev as [->|[-> _]]; reflexivity). rewrite Hsa in W2.
+  destruct (step st1 ev) as [st2 o] eqn:E. destruct (run st2 evs2) as [st3 os] eqn:R.
+  destruct (step_struct _ _ ev _ _ S Wev E) as [S2 _]. rewrite Hsa in S2.
+  destruct (next_timer_facts _ _ N) as (e & He1 & He2 & Hmin).
+  set (sta := set_now st1 (Z.max (now st1) (h_due h))).
+  assert (Sa : Struct (seen_all [] evs1) sta) by (apply struct_set_now; auto).
+  assert (Ea : _retransmit sta h = (st2, o)).
+  { destruct Hev as [->|[-> Hdue]]; cbn [step] in E; rewrite N in E; [exact E|].
+    assert (h_due h <=? now st1 = true) as Hb by lia. rewrite Hb in E.
+    assert (sta = st1) as ->; [|exact E]. unfold sta, set_now. replace (Z.max (now st1) (h_due h)) with (now st1) by lia. destruct st1; reflexivity. }
+  pose proof (retransmit_struct _ _ _ _ _ _ Sa He1 He2 Ea) as Sh. cbv zeta in Sh. destruct Sh as (_ & _ & _ & X & Sh).
+  destruct (pop_facts _ sta _ _ h Sa X) as (Hin & _ & _ & _ & _ & Hrest & Hbr & _).
+  destruct Sh as [(_ & st1' & oe & S1' & En1 & Ex & Eb & Eo & Hcase)|(Heq & _)]; [|lia].
+  destruct Hcase as [(Hf & _)|(_ & D & ->)]; [unfold is_refusing in *; cbn in Hf; congruence|].
+  destruct (error_struct _ _ _ _ _ S1' D) as (_ & _ & _ & Ex2 & Eb2 & _ & Eoe).
+  assert (Hdead : ~ live (m_rid (h_message h)) st2).
+  { intros Hl. apply live_iff in Hl. rewrite Ex2, Eb2, Ex, Eb in Hl. destruct Hl as [[e' [He' Hr']]|Hl].
+    - apply filter_In in He'. destruct He' as [He' Hnr]. apply negb_true_iff in Hnr. apply Z.eqb_neq in Hnr.
+      apply in_xset in He'. destruct He' as [->|[He' _]]; [apply Hnr; reflexivity|]. apply Hrest in He'. tauto.
+    - apply in_back_qdel_sub in Hl. eapply Hbr; eauto. }
+  assert (Hseen : In (m_rid (h_message h)) (seen_all [] evs1)).
+  { eapply live_rids_seen; [exact S|]. unfold live_rids. apply in_app_iff. left. apply in_map_iff. exists e. split; auto. unfold e_rid. rewrite He2. reflexivity. }
+  split.
+  - rewrite copies_app. rewrite (dead_run evs2 _ st2 st3 os _ S2 W2 Hseen Hdead R), app_nil_r.
+    apply copies_fail_only. apply (proj2 (live_dispatch _ _ _ _ D)).
+  - intros rid Hi. rewrite Eoe. assert (now st1' = Z.max (now st1) (h_due h)) as -> by (rewrite En1; reflexivity).
+    apply in_map_iff. exists (rid, m_remote (h_message h)). split; auto. apply filter_In. split; [rewrite Eo; exact Hi|cbn; apply Z.eqb_refl].
+Qed.
+
+(* a request whose FIRST transmission is refused: its message never reaches the wire -- not in this step, not later --
+   and the request fails with NetworkError at that instant *)
+Lemma refused_request_stops : forall mid0 draws evs1 rid r tn evs2,
+  wf_run draws (evs1 ++ ERequest rid r tn :: evs2) ->
+  is_refusing (final_of mid0 draws evs1) r = true -> in_backlogs (final_of mid0 draws evs1) r = false ->
+  let st1 := final_of mid0 draws evs1 in
+  let '(st2, o) := step st1 (ERequest rid r tn) in
+  let '(st3, os) := run st2 evs2 in
+  copies rid (o ++ concat os) = [] /\ In (OFail (now st1) rid NetworkError) o.
+Proof.
+  intros mid0 draws evs1 rid r tn evs2 [Hd W] Hr Hnb st1.
+  apply wf_events_app in W. destruct W as [W1 [[Wf Wt] W2]]. cbn [seen_after] in W2.
+  destruct (reach mid0 draws evs1 (conj Hd W1)) as (S & _). fold st1 in S, Hr, Hnb.
+  destruct (step st1 (ERequest rid r tn)) as [st2 o] eqn:E. destruct (run st2 evs2) as [st3 os] eqn:R.
+  destruct (step_struct _ _ (ERequest rid r tn) _ _ S (conj Wf Wt) E) as [S2 _]. cbn [seen_after] in S2.
+  cbn [step] in E. pose proof (request_shape _ _ _ _ _ _ _ S Wf Wt E) as Sh. cbv zeta in Sh.
+  destruct Sh as [(q & Q & _)|(Q & Hno & t & sq & st1' & oe & Hrg & S1' & En1 & Eo1 & Ex & Eb & Ebl & Hcase)].
+  { unfold in_backlogs in Hnb. rewrite Q in Hnb. discriminate. }
+  destruct Hcase as [(Hf & _)|(_ & D & ->)]; [congruence|].
+  destruct (error_struct _ _ _ _ _ S1' D) as (_ & _ & _ & Ex2 & Eb2 & _ & Eoe).
+  assert (Hdead : ~ live rid st2).
+  { intros Hl. apply live_iff in Hl. rewrite Ex2, Eb2, Ex in Hl. destruct Hl as [[e' [He' Hr']]|Hl].
+    - apply filter_In in He'. destruct He' as [He' Hnr]. apply negb_true_iff in Hnr. apply Z.eqb_neq in Hnr.
+      apply in_xset in He'. destruct He' as [->|[He' _]]; [apply Hnr; reflexivity|]. apply Wf. rewrite <- Hr'. eapply live_exch_seen; eauto.
+    - apply in_back_qdel_sub in Hl. apply Eb in Hl. apply Wf. eapply live_back_seen; eauto. }
+  split.
+  - rewrite copies_app. rewrite (dead_run evs2 _ st2 st3 os rid S2 W2 (or_introl eq_refl) Hdead R), app_nil_r.
+    apply copies_fail_only. intros t' m' Hi. destruct Hi as [Hi|Hi]; [discriminate|]. eapply (proj2 (live_dispatch _ _ _ _ D)); eauto.
+  - right. rewrite Eoe, En1. apply in_map_iff. exists (rid, r). split; auto. apply filter_In. split; [rewrite Eo1; apply in_app_iff; right; left; reflexivity|cbn; apply Z.eqb_refl].
 Qed.
